@@ -114,7 +114,12 @@ pixman_edge_step (pixman_edge_t *e,
     }
     else
     {
-	if (ne <= -e->dy)
+	/* e == -dy is the state pixman_edge_init () starts from (the
+	 * line passes exactly through x); it is left alone, as it is when
+	 * stepping downwards, so that a side has the same abscissa whether
+	 * its upper point lies above or below the first sample row.
+	 */
+	if (ne < -e->dy)
 	{
 	    int nx = (-ne) / e->dy;
 	    e->e = ne + nx * (pixman_fixed_48_16_t) e->dy;
